@@ -26,3 +26,4 @@ def check(ctx):
     ctx.floor("JUMP-ownership", 9)
     drivers.run_loops(ctx)
     noise.mps_noise_plumbing(ctx)
+    drivers.jump_gap(ctx)
